@@ -50,6 +50,9 @@ THEOREMS = [
     "OllamaVerif.Lockset.live_pointer_not_torn_down",
     "OllamaVerif.Lockset.validated_pointer_not_torn_down",
     "OllamaVerif.Lockset.stale_pointer_witness",
+    "OllamaVerif.Lockset.liveAt_not_cleared",
+    "OllamaVerif.Lockset.validAt_not_cleared",
+    "OllamaVerif.Lockset.stale_rule_sound",
     "OllamaVerif.Tie.C15.violations_exact",
     "OllamaVerif.Tie.C15.discipline_holds",
     "OllamaVerif.Tie.C15.classes_partition",
@@ -59,12 +62,26 @@ THEOREMS = [
     "OllamaVerif.Tie.C15.race_free_good_classes",
     "OllamaVerif.Tie.C15.stale_exact",
     "OllamaVerif.Tie.C15.no_stale_reads",
+    "OllamaVerif.Tie.C15.no_use_of_torn_down_runner",
     "OllamaVerif.Tie.C15.teardown_locks",
     "OllamaVerif.Tie.C15.holder_granted_runner_is_open",
     "OllamaVerif.Tie.C15.holder_runner_not_closed_while_used",
 ]
 OVERLAY = {"server/zz_verif_c15_test.go": "server/zz_verif_c15_test.go"}
 LOCKSET_DIR = os.path.join(core.ROOT, "harness", "cmd", "lockset")
+
+
+# branches of Lockset.compat / Lockset.staleRead as named by harness/cmd/lockset (pairBranch / staleBranch)
+RULE_BRANCHES = ["pair_both_reads", "pair_reads_delete_on_never_inserted_map", "pair_same_single_thread", "pair_common_lock",
+                 "pair_exempt_init", "pair_exempt_atomic", "pair_exempt_fork_pre_post", "pair_exempt_fork_pre_pre", "pair_exempt_hb",
+                 "pair_violation", "pair_violation_init_vs_racy_reference",
+                 "stale_na_not_a_read", "stale_na_class_not_cleared", "stale_ok_nil_comparison_only", "stale_ok_live", "stale_ok_valid",
+                 "stale_ok_fresh", "stale_ok_holder", "stale_flag_not_honoured_a_write_lacks_the_lock", "stale_unprotected"]
+# what the tie theorems for the TREE speak about: if the tree's own table stops exercising these, `discipline_holds`,
+# `no_stale_reads` and `no_use_of_torn_down_runner` hold for an empty reason (e.g. the translator lost the lock
+# operations or the registry look-ups) -> fail closed.  (holder / atomic / fork / doneclose are reported only: a
+# repair of F13f legitimately removes the last holder-exempted read.)
+TREE_BRANCHES = ["pair_common_lock", "pair_same_single_thread", "pair_exempt_init", "stale_ok_live", "stale_ok_valid"]
 
 
 def regenerate(ctx):
@@ -87,6 +104,20 @@ def regenerate(ctx):
     return json.load(open(js))
 
 
+def sched_variant(ctx):
+    """regenerate C01's tree facts (Generated/C01_SchedFacts.lean) the way the scheduler checks do: since round 7 the
+    variant flags also need the behavioural probe (witness schedules on the real scheduler)"""
+    if hasattr(sched_common, "regenerate_probed"):
+        return sched_common.regenerate_probed(ctx)
+    if hasattr(sched_common, "probe"):
+        overlay = dict(sched_common.OVERLAY)
+        overlay.update(sched_common.runtime_overlay(ctx))
+        probed = sched_common.probe(ctx, overlay)
+        ctx.stats["sched_probe_ran"] = int(bool(probed[0]))
+        return sched_common.regenerate(ctx, probed)
+    return sched_common.regenerate(ctx)
+
+
 def rule_l1(ctx):
     """L1 for the RULE: random fact tables, the translator's evaluation vs the Lean oracle's, exact."""
     outdir = os.path.join(ctx.tmp, "rule-l1")
@@ -96,8 +127,15 @@ def rule_l1(ctx):
                        stdout=subprocess.PIPE, stderr=subprocess.STDOUT, text=True)
     if p.returncode != 0:
         raise RuntimeError("lockset selftest failed: " + p.stdout[-1000:])
-    ctx.read_stats(outdir)
+    st = ctx.read_stats(outdir)
     ctx.l1(outdir, label="rule")
+    # every branch of the two rules (first accepting disjunct of `compat` / `staleRead`, or rejection) must have
+    # decided on some random table: exact agreement says nothing about a branch that was never taken
+    missing = [b for b in RULE_BRANCHES if st.get(b, 0) == 0]
+    ctx.coverage["rule_branches_random_tables"] = {b: st.get(b, 0) for b in RULE_BRANCHES}
+    if missing:
+        ctx.violation("correspondence-coverage", "rule", "branches of the lockset / stale-pointer rule never decided on any "
+                      "random table of the rule correspondence: " + ", ".join(missing), no_input=True)
 
 
 def pair_case(cls, ua, ub):
@@ -271,23 +309,57 @@ def crash_failure(out, loc, repo):
     return {"kind": "process-crash", "case": f"unit={unit}", "detail": f"{m.group(1)} at {f}:{l}"}
 
 
+# unit -> the function it was extracted from / is written in (facts["parents"]), and the unit names of the
+# pinned tree (corpus/C15/baseline_units.txt); filled by run()
+_ALT = {"parents": {}, "baseline": set()}
+
+
+def origin_unit(u):
+    """a closure is named after the function it is written in (closure numbering shifts when one is added); a
+    declared function that is new w.r.t. the baseline and has exactly one caller is named after that caller:
+    a helper extracted from a function with a known finding is still that finding"""
+    for _ in range(8):
+        p = _ALT["parents"].get(u)
+        if p is None or not ("$" in u or u not in _ALT["baseline"]):
+            break
+        u = p
+    return u
+
+
+def alt_case(case):
+    if case.startswith("unit="):
+        return "unit=" + origin_unit(case[5:])
+    parts = case.split("|")
+    if len(parts) in (2, 3) and " " not in case:
+        return "|".join([parts[0]] + sorted(origin_unit(u) for u in parts[1:]))
+    return case
+
+
 def matcher(finding, failure):
     sig = finding.get("signature", {})
     alts = sig.get("any") or [sig]
-    for s in alts:
-        if s and core.default_matcher({"signature": s}, failure):
-            return True
+    tries = [failure]
+    ac = alt_case(failure.get("case", ""))
+    if ac != failure.get("case"):
+        tries.append(dict(failure, case=ac))
+    for f in tries:
+        for s in alts:
+            if s and core.default_matcher({"signature": s}, f):
+                return True
     return False
 
 
 def run(ctx):
     facts = regenerate(ctx)
     # the holder hypothesis is discharged through the scheduler tie (C01): regenerate its facts too
-    variant = sched_common.regenerate(ctx)
+    variant = sched_variant(ctx)
     ctx.lean_check(MODULES, THEOREMS)
     if ctx.lean_ok:
         rule_l1(ctx)
     loc = Locator(facts)
+    _ALT["parents"] = facts.get("parents") or {}
+    bp = os.path.join(core.ROOT, "corpus", "C15", "baseline_units.txt")
+    _ALT["baseline"] = {ln.strip() for ln in open(bp) if ln.strip() and not ln.startswith("#")} if os.path.exists(bp) else set()
 
     # ---- static: every violating pair must be explained by a listed finding
     st = static_failures(facts)
@@ -307,6 +379,12 @@ def run(ctx):
     ctx.coverage["map_insertion_sites"] = facts["map_insertion_sites"]
     ctx.coverage["bad_classes"] = facts["bad_classes"]
     ctx.coverage["translator_notes"] = (facts.get("notes") or [])[:20]
+    tb = facts.get("rule_branches") or {}
+    ctx.coverage["rule_branches_tree_table"] = tb
+    tmissing = [b for b in TREE_BRANCHES if tb.get(b, 0) == 0]
+    if tmissing:
+        ctx.violation("correspondence-coverage", "tree", "the access table regenerated from the tree never exercises these branches "
+                      "of the rules the tie theorems rest on: " + ", ".join(tmissing), no_input=True)
 
     # ---- dynamic: witness search under the race detector (several processes: the pinned
     # server can crash the process or wedge its scheduler)
